@@ -220,6 +220,10 @@ func enumOnce(rf *RunFile, target int, fault, crash int, post bool, abandon int)
 		e.cur = nil
 		e.Audit()
 	}
+	if fault > 0 || abandon > 0 {
+		e.opIdx = len(rf.Ops)
+		e.closeAtEnd() // under the hang monitor: nothing the failed operation left behind may keep Close waiting
+	}
 	if e.V != nil && e.V.OpIdx > target && (fault > 0 || crash > 0 || abandon > 0) && e.V.Rule != "C20/panic" {
 		// something went wrong AFTER the failed / crashed operation, on a database
 		// which is fine without the fault: the failure left a trace in the handle
